@@ -508,7 +508,7 @@ func (m *UDPMuxDefault) registerConnForAddress(conn *udpMuxedConn, addr netip.Ad
 	defer m.addressMapMu.Unlock()
 
 	existing, ok := m.addressMap[addr]
-	if ok {
+	if ok && existing != conn {
 		existing.removeAddress(addr)
 	}
 	m.addressMap[addr] = conn
